@@ -29,6 +29,8 @@ def make_worker(tier):
     def work(chunk):
         S = Stats()
         for idx, (label, decls) in chunk:
+            if label == "enum-beyond-i32":
+                continue  # the reflection schema stores enumerator values as i32; larger values are outside C12's scope
             S.count("states")
             text = print_schema(decls)
             inp = {"text": text, "description": decls}
@@ -47,6 +49,17 @@ def make_worker(tier):
                 S.add("outcomes", "reflection-exc")
                 S.violation("C12.reflection", "C12.reflection/exception:%s/%s" % (type(e).__name__, label), inp, expected="record", actual="%s: %s" % (type(e).__name__, str(e)[:200]))
                 continue
+            # a second call on the same object must give the same record and leave the first one untouched
+            import copy
+
+            snap = copy.deepcopy(rec)
+            S.count("executions")
+            try:
+                rec2 = fcp.reflection()
+            except Exception as e:  # noqa
+                rec2 = "%s: %s" % (type(e).__name__, str(e)[:100])
+            if not (isinstance(rec2, dict) and refcodec.same(rec2, snap) and refcodec.same(rec, snap)):
+                S.violation("C12.repeat", "C12.repeat/second-reflection-differs/" + label, inp, expected=strip_meta(snap), actual={"second": strip_meta(rec2) if isinstance(rec2, dict) else rec2, "first_after_second_call": strip_meta(rec)})
             exp = reftree.expected_reflection(decls)
             diffs = reftree.project_diff(exp, rec)
             if diffs:
@@ -65,7 +78,11 @@ def make_worker(tier):
             else:
                 S.add("outcomes", "roundtrip-differs")
                 d2 = reftree.project_diff(_exactify(rec), dec)
-                S.violation("C12.roundtrip", "C12.roundtrip/record-differs/" + classify(label, d2 or ["/?"]), inp, expected=rec, actual={"diffs": d2[:8], "decoded": dec})
+                key = classify(label, d2 or ["/?"])
+                if d2 and all(x.endswith(": expected -2147483648 got 2147483648") for x in d2):
+                    # the reflection schema's only signed type is i32: this is the open serde finding, nothing else
+                    key = "signed-minimum-decodes-as-positive"
+                S.violation("C12.roundtrip", "C12.roundtrip/record-differs/" + key, inp, expected=rec, actual={"diffs": d2[:8], "decoded": dec})
             if len(S.samples) < 2:
                 S.sample({"label": label, "text": print_schema(decls, "compact"), "encoded_bytes": len(enc)})
         return S
